@@ -112,14 +112,16 @@ def gen_utimes(rng, cid):
 class Fam:
     """a family of programs: progs[0] is the top; every program knows its includes, inherits and function texts"""
 
-    def __init__(self, rng, cid, nprog=None, big=False):
+    def __init__(self, rng, cid, nprog=None, big=False, saves=None):
         self.rng = rng
         self.dir = "c17/w/" + cid
         self.used_names = set()
         nprog = rng.range(1, 4) if nprog is None else nprog
         self.progs = []
         for i in range(nprog):
-            self.progs.append({"file": "p%d" % i, "k": rng.range(1, 99), "inh": [], "inc": [], "fns": [], "labels": []})
+            # names of different lengths (the binary stores the names of the program and of its parents)
+            self.progs.append({"file": "p%d%s" % (i, "x" * rng.weighted([(0, 3), (1, 1), (3, 1), (7, 1)])), "k": rng.range(1, 99),
+                               "inh": [], "inc": [], "fns": [], "labels": []})
         # inheritance: a chain, sometimes the top inherits two
         for i in range(nprog - 1):
             self.progs[i]["inh"].append(i + 1)
@@ -127,8 +129,8 @@ class Fam:
             self.progs[1]["inh"].remove(2)
             self.progs[0]["inh"].append(2)
         self.incs = {}     # include file name -> constant
-        for p in self.progs:
-            p["save"] = rng.chance(5, 6)
+        for n, p in enumerate(self.progs):
+            p["save"] = rng.chance(5, 6) if saves is None else saves[n]
             p["types"] = rng.chance(1, 2)
             for _ in range(rng.weighted([(0, 3), (1, 4), (2, 2)])):
                 nm = "h%d.h" % len(self.incs)
@@ -367,8 +369,8 @@ class Fam:
         return toks, expect
 
 
-def sys_case(rng, cid, steps=None, nprog=None, big=False, script=None, mode=None):
-    fam = Fam(rng, cid, nprog=nprog, big=big)
+def sys_case(rng, cid, steps=None, nprog=None, big=False, script=None, mode=None, saves=None):
+    fam = Fam(rng, cid, nprog=nprog, big=big, saves=saves)
     t = 1000
     L = ["clean /" + fam.dir]
     for nm in sorted(fam.incs):
@@ -407,11 +409,20 @@ def sys_case(rng, cid, steps=None, nprog=None, big=False, script=None, mode=None
         for _ in range(nsteps):
             script.append(rng.weighted([("nothing", 6), ("edit-src", 3), ("edit-inc", 3), ("touch-inh", 2), ("touch-src", 2),
                                         ("touch-inc", 1), ("simul-restart", 2), ("restart", 1), ("equal-inc", 1),
-                                        ("simul-norestart", 1), ("edit-parent-inc", 2)]))
+                                        ("simul-norestart", 1), ("edit-parent-inc", 2), ("damage", 2), ("foreign", 2), ("moved", 1), ("badload", 1)]))
     for act in script:
         t += 1
+        which = None
+        if isinstance(act, tuple):
+            act, which = act
+        if act == "badload":
+            # a file that does not compile is loaded first (same process: the compiler's error state is left behind)
+            bad = "%s/bad%d" % (fam.dir, t)
+            L.append("file /%s.c %s" % (bad, hx("int broken ( { return 1 }\n")))
+            L.append("mtime /%s.c %d" % (bad, t))
+            L.append("badload %s" % bad)
         if act == "edit-src":
-            i = rng.below(len(fam.progs))
+            i = rng.below(len(fam.progs)) if which is None else which
             fam.progs[i]["k"] += 1
             L.append("file /%s %s" % (fam.path(i), hx(fam.text(i))))
             L.append("mtime /%s %d" % (fam.path(i), t))
@@ -435,6 +446,26 @@ def sys_case(rng, cid, steps=None, nprog=None, big=False, script=None, mode=None
             L.append("restart " + " ".join(objs))
         elif act == "simul-norestart":
             L.append("mtime /simul_efun.c %d" % t)
+        elif act == "damage":
+            # the saved binary of one program is truncated or gets a flipped bit (its mtime kept)
+            saved = [i for i in range(len(fam.progs)) if fam.progs[i]["save"]]
+            if saved:
+                i = rng.choice(saved)
+                if rng.chance(1, 2):
+                    L.append("corrupt %s trunc %d" % (fam.path(i), rng.below(1000)))
+                else:
+                    L.append("corrupt %s flip %d %d" % (fam.path(i), rng.below(1000) if rng.chance(2, 3) else rng.below(60),
+                                                         rng.choice([1, 2, 4, 8, 16, 32, 64, 128, 255])))
+        elif act == "foreign":
+            # a binary written by another driver build (magic / driver_id) or under another configuration
+            saved = [i for i in range(len(fam.progs)) if fam.progs[i]["save"]]
+            if saved:
+                L.append("foreign %s %s" % (fam.path(rng.choice(saved)), rng.choice(["magic", "driver", "config"])))
+        elif act == "moved":
+            saved = [i for i in range(len(fam.progs)) if fam.progs[i]["save"]]
+            if len(saved) >= 2:
+                a, b = rng.shuffle(saved)[:2]
+                L.append("copybin %s %s" % (fam.path(a), fam.path(b)))
         elif act == "edit-parent-inc":
             # a header that a parent includes and the top does not (if there is one)
             cand = [nm for i in range(1, len(fam.progs)) for nm in fam.progs[i]["inc"] if nm not in fam.progs[0]["inc"]]
@@ -491,6 +522,28 @@ def boundary():
             c = sys_case(E.Rng(seed + 10 * k), "p%d_%d" % (k, seed), nprog=3, script=script)
             c.id = "b-sys-%d-" % seed + "-".join(script)
             B.append(c)
+    for k in range(6):
+        c = sys_case(E.Rng(7000 + k), "d%d" % k, nprog=2, script=["damage", "nothing", "damage"], mode=["reloadp", "reload"][k % 2])
+        c.id = "b-sys-damage-%d" % k
+        B.append(c)
+    for k, script in enumerate([["foreign"], ["foreign", "foreign"], ["moved"], ["moved", "nothing"]]):
+        for seed in (7100, 7101, 7102):
+            c = sys_case(E.Rng(seed + 10 * k), "f%d_%d" % (k, seed), nprog=3, script=script, mode=["reloadp", "reload"][seed % 2])
+            c.id = "b-sys-%d-%d-" % (k, seed) + "-".join(script)
+            B.append(c)
+    # chains with unsaved parents: the leaf, the middle, or a header of them changes
+    for k, (saves, script) in enumerate([([True, False, False], [("edit-src", 2)]), ([True, False, False], [("edit-src", 1)]),
+                                         ([True, False, True], [("edit-src", 2)]), ([True, True, False], [("edit-src", 2)]),
+                                         ([True, False, False], ["edit-parent-inc"]), ([True, False, False, False], [("edit-src", 3)])]):
+        for seed in (7200, 7201):
+            c = sys_case(E.Rng(seed + 10 * k), "u%d_%d" % (k, seed), nprog=len(saves), script=script, saves=saves,
+                         mode=["reloadp", "reload"][seed % 2])
+            c.id = "b-sys-unsaved-%d-%d" % (k, seed)
+            B.append(c)
+    for k in range(4):
+        c = sys_case(E.Rng(7300 + k), "e%d" % k, nprog=2, script=["badload", "nothing"], mode="reload")
+        c.id = "b-sys-badload-%d" % k
+        B.append(c)
     # pragma positions (top / between functions / end / in an include / toggled), same process and new process
     for k in range(12):
         c = sys_case(E.Rng(6000 + k), "q%d" % k, nprog=2, script=["nothing", "nothing"], mode=["reloadp", "reload"][k % 2])
@@ -514,7 +567,7 @@ def generate(rng, n, tier):
 
 def histogram(cases, impl):
     h = {"unit_cases": 0, "sys_cases": 0, "reloads": 0, "binary_used": 0, "stale": 0, "needs_inherit": 0, "saves": 0,
-         "permuted_reloads": 0, "switch_tables": 0, "programs_dumped": 0, "usort": 0, "upatch": 0, "call_results": 0}
+         "permuted_reloads": 0, "damaged_binaries": 0, "switch_tables": 0, "programs_dumped": 0, "usort": 0, "upatch": 0, "call_results": 0}
     h["fresh_process_reloads"] = sum(1 for c in cases for l in c.lines if l.startswith("reloadp "))
     h["string_case_expectations"] = sum(1 for c in cases for l in c.lines if l.startswith("expect "))
     pos = {}
@@ -556,6 +609,8 @@ def histogram(cases, impl):
                 h["binary_used" if t[2] == "use" else "stale" if t[2] == "stale" else "needs_inherit"] += 1
             elif t[0] == "sv":
                 h["saves"] += 1
+            elif t[0] == "corrupted":
+                h["damaged_binaries"] += 1
             elif t[0] == "D" and t[2] == "hdr":
                 h["programs_dumped"] += 1
             elif t[0] == "D" and t[2] == "sw":
